@@ -221,6 +221,9 @@ PROPS["C03"] = {
     "rule": ("(a) a case = configuration + prefix history + one block; non-trivial = a failing or rejected transaction preceded in the same block by a successful one touching the same account/contract. (b) a case = tree + schedule; non-trivial = a refused delivery on a chain of height >=2 or a failed reorganisation with the invalid block at position >=2."),
     "assumptions": _TREE_ASSUME,
     "units": [
+        {"pkg": "verifx/c03", "run": "^TestC03TxAtomicity$",
+         "quick": {"checks": 80, "shards": 12, "timeout": 400},
+         "thorough": {"checks": 1500, "shards": 16, "timeout": 1700}},
         {"pkg": "verifx/tree", "run": "^TestC03InvalidBlocks$",
          "quick": {"checks": 100, "shards": 10, "timeout": 400},
          "thorough": {"checks": 2000, "shards": 16, "timeout": 1700}},
